@@ -94,12 +94,19 @@ class Buffer:
                     return message, end
                 except Exception:
                     logger.warning("Buffer: Contents is not a valid message")
+                    # a complete element that is not a valid message never becomes one
+                    return None, end
         return None, None
 
     def process(self, callback: Callable[[IndiMessage], None]):
         self._cleanup_buffer()
         while self.data_len:
             message, end = self._find_message_in_buffer()
+
+            if not message and end is not None:
+                self.data = self.data[end:]
+                self._cleanup_buffer()
+                continue
 
             if not message:
                 if (
